@@ -67,7 +67,8 @@ CONSTANTS
   Wraps,           \* container stacks of mode laxAncestor (sequences of container names, outermost first)
   TimeBoundaries,  \* time forms: the years at which the written form of a time changes (1950, 2050)
   TimeMinutes,     \* ... wall-clock minutes from 1 January 00:00 of the boundary year (negative: the year before)
-  TimeOffsets      \* ... zone offsets in minutes (0 is "Z", the only DER form)
+  TimeOffsets,     \* ... zone offsets in minutes (0 is "Z", the only DER form)
+  StringFormShapes \* the shapes in which the string forms (clause StringTable) are placed
 
 VARIABLES c,       \* the case
           vd       \* its verdict, Verdict(c) (a variable so that the laws below evaluate it once per case)
@@ -204,7 +205,27 @@ Shapes == [
   topiA    |-> L("oid", {"application"}),
   topiP    |-> L("int", {"tag1", "private"}),
   topiAP   |-> Struct({"tag30", "application", "private"}, <<L("int", {}), L("str", {})>>),
-  topiO    |-> L("int", {"tag1", "application", "default7"} \cup Opt)
+  topiO    |-> L("int", {"tag1", "application", "default7"} \cup Opt),
+  \* ---- strings of each tag (clause StringTable below): the string types a field parameter can name, behind an IMPLICIT
+  \* tag (which hides the universal tag: the contents are read as the declared type) and inside EXPLICIT
+  strtag   |-> Struct({}, <<L("str", {"tag0", "ia5"}), L("str", {"tag1", "numeric"}), L("str", {"tag2", "printable"} \cup Opt),
+                             Expl({"tag3"}, L("str", {"utf8"}))>>),
+  \* ---- EXPLICIT x target type (clause ExplicitTargets below): RawValue / Flag / []byte / struct / bool behind an EXPLICIT
+  \* tag, context-specific / application / private, required / OPTIONAL, followed by a required member, by an OPTIONAL
+  \* one (the wrapper is the last element when that one is absent), or last; and at top level
+  xraw     |-> Struct({}, <<Expl({"tag0"}, L("raw", {})), L("int", {})>>),
+  xrawopt  |-> Struct({}, <<L("int", {}), Expl({"tag1"} \cup Opt, L("raw", {})), L("int", Opt)>>),
+  xrawcls  |-> Struct({}, <<Expl({"tag2", "application"}, L("raw", {})), Expl({"tag2", "private"}, L("raw", {})), L("bool", {})>>),
+  xflag    |-> Struct({}, <<Expl({"tag0"}, L("flag", {})), L("int", {})>>),
+  xflaglast|-> Struct({}, <<L("int", {}), Expl({"tag0"} \cup Opt, L("flag", {}))>>),
+  xflagcls |-> Struct({}, <<Expl({"tag5", "application"} \cup Opt, L("flag", {})), Expl({"tag5", "private"} \cup Opt, L("flag", {})),
+                             L("oid", {})>>),
+  xbytes   |-> Struct({}, <<Expl({"tag0"}, L("bytes", {})), Expl({"tag1"} \cup Opt, Struct({}, <<L("int", {})>>)),
+                             Expl({"tag2"} \cup Opt, L("bool", {}))>>),
+  topxRaw  |-> Expl({"tag1"}, L("raw", {})),
+  topxRawA |-> Expl({"application"} \cup Opt, L("raw", {})),
+  topxFlag |-> Expl({"tag1"} \cup Opt, L("flag", {})),
+  topxBytes|-> Expl({"tag2"}, L("bytes", {}))
 ]
 
 LengthShapes == {"oct0", "oct1", "oct127", "oct128", "oct255", "oct256", "oct65535", "oct65536",
@@ -333,17 +354,230 @@ ClassDefects == {"classUniversal", "classContext", "classApplication", "classPri
 WireClass(d) == CASE d = "classUniversal" -> "universal" [] d = "classContext" -> "context"
                   [] d = "classApplication" -> "application" [] d = "classPrivate" -> "private"
 
-Defects == LaxTolerated \cup AlwaysRejected \cup DeliberateDiff \cup Benign \cup ClassDefects
+(* ---- EXPLICIT x target type (clause ExplicitTargets) -------------------------------------------
+   X.690 8.14: an EXPLICIT tag is a constructed wrapper around the complete encoding of the inner value.  What the
+   decoder does with the wrapper depends on the Go type that receives it - upstream's table (encoding/asn1 parseField),
+   every row re-confirmed against the real encoding/asn1 on every run:
+     ExplicitOpaque    into a RawValue the wrapper is not opened: the RawValue IS the wrapper (its class, its number,
+                       its constructed bit, its contents, its full encoding), whatever the wrapper holds - nothing at
+                       all included; Marshal writes the full encoding back.
+     ExplicitPresence  a wrapper of length 0 into a Flag says "present" (the Flag is true); into every other type
+                       but RawValue it is rejected.  The constructed bit of a wrapper of length 0 is not looked at.
+     ExplicitNoChild   a wrapper header that is the LAST thing in its buffer (the enclosing SEQUENCE body; at top level
+                       the input, i.e. no remainder follows) is rejected before its tag is looked at - Flag and
+                       RawValue included.
+     a wrapper with contents whose constructed bit is not set does not match (explicitPrimitive: a required member
+     is rejected; not generated for OPTIONAL members).                                                          *)
+ExplicitEmptyDefects == {"explicitEmpty", "explicitEmptyPrimitive"}
+
+(* ---- strings of each tag (clause StringTable) --------------------------------------------------
+   X.680 41 / X.690 8.23: the restricted character string types.  A Go string (and an interface{}) receives every one
+   of them; which one is on the wire is a dimension of the INPUT (the universal tag - behind an IMPLICIT tag the type the
+   field parameter declares, PrintableString by default), and so are the contents.  A string form is [st, oct]: the
+   string type and the content octets.  Whether a decoder accepts it and which Go string - given here as its code
+   points ("runes") or, for the 8-bit-clean types, as its bytes ("raw") - it must yield:
+     printable   every octet in the PrintableString set of X.680 41.4, plus '*' and '&' (PrintableAsteriskAmpersand:
+                 upstream accepts both, "reflecting existing practice").  LAX (property text: "PrintableString contents
+                 that are really ISO 8859-1 or T.61 text"): otherwise, when every octet is an ISO 8859-1 graphic
+                 character (20..7E, A0..FF), the string is that Latin-1 text; otherwise, when no octet is NUL or one
+                 of the positions T.61 leaves unassigned (T61Unassigned, the fork's documented list), the octets as
+                 they are; otherwise rejected.
+     utf8        well-formed UTF-8 (RFC 3629: shortest form, no surrogate code points, at most U+10FFFF)
+     ia5         every octet below 80
+     numeric     digits and space
+     t61, general   8-bit clean: any octets, handed over unchanged (T61IsOpaque; no conversion is attempted)
+     bmp         an even number of octets; big-endian 16-bit units; ONE trailing unit 0000 is dropped (BMPTerminator);
+                 the units are read as UTF-16: a high surrogate followed by a low surrogate is ONE supplementary-plane
+                 character, any other surrogate unit is U+FFFD (BMPAsUTF16 - named clause: X.680 knows no surrogates in
+                 a BMPString, the property says "equal value" to upstream, upstream reads UTF-16)
+   The verdicts are computed from these rules (not tabulated), the same for the fork and for upstream; Marshal never
+   writes t61 / general / bmp, so RoundTrip is not asserted of a string form (MarshalAgrees is).                    *)
+StringTag(st) == CASE st = "utf8" -> 12 [] st = "numeric" -> 18 [] st = "printable" -> 19 [] st = "t61" -> 20
+                   [] st = "ia5" -> 22 [] st = "general" -> 27 [] st = "bmp" -> 30
+SF(st, oct) == [st |-> st, oct |-> oct]
+StringForms == [
+  \* BMPString
+  bmpText         |-> SF("bmp", <<0, 97, 0, 233, 32, 172, 48, 66>>),          \* a e-acute euro hiragana-a
+  bmpEmpty        |-> SF("bmp", <<>>),
+  bmpPair         |-> SF("bmp", <<216, 61, 222, 0>>),                        \* D83D DE00 = U+1F600
+  bmpPairInText   |-> SF("bmp", <<0, 97, 216, 61, 222, 0, 0, 98>>),
+  bmpPairEdges    |-> SF("bmp", <<216, 0, 220, 0, 219, 255, 223, 255>>),     \* U+10000, U+10FFFF
+  bmpLoneHigh     |-> SF("bmp", <<216, 61, 0, 65>>),
+  bmpLoneLow      |-> SF("bmp", <<0, 65, 222, 0, 0, 66>>),
+  bmpReversedPair |-> SF("bmp", <<222, 0, 216, 61>>),
+  bmpHighAtEnd    |-> SF("bmp", <<0, 65, 216, 61>>),
+  bmpHighHighLow  |-> SF("bmp", <<216, 61, 216, 61, 222, 0>>),
+  bmpLowLow       |-> SF("bmp", <<220, 0, 223, 255>>),
+  bmpAroundSurr   |-> SF("bmp", <<215, 255, 224, 0>>),                       \* U+D7FF, U+E000
+  bmpFFFF         |-> SF("bmp", <<255, 255, 255, 254, 255, 253>>),           \* U+FFFF, U+FFFE, U+FFFD
+  bmpOdd          |-> SF("bmp", <<0, 97, 0>>),
+  bmpOneOctet     |-> SF("bmp", <<97>>),
+  bmpTerminator   |-> SF("bmp", <<0, 97, 0, 0>>),
+  bmpOnlyTerm     |-> SF("bmp", <<0, 0>>),
+  bmpTwoTerms     |-> SF("bmp", <<0, 97, 0, 0, 0, 0>>),
+  bmpNulFirst     |-> SF("bmp", <<0, 0, 0, 97>>),
+  bmpOddTerm      |-> SF("bmp", <<0, 97, 0, 0, 0>>),
+  bmpPairTerm     |-> SF("bmp", <<216, 61, 222, 0, 0, 0>>),
+  \* UTF8String
+  utf8Edges2and3  |-> SF("utf8", <<127, 194, 128, 223, 191, 224, 160, 128, 237, 159, 191, 238, 128, 128, 239, 191, 191>>),
+  utf8Four        |-> SF("utf8", <<240, 159, 152, 128>>),                    \* U+1F600
+  utf8FourEdges   |-> SF("utf8", <<240, 144, 128, 128, 244, 143, 191, 191>>), \* U+10000, U+10FFFF
+  utf8Nul         |-> SF("utf8", <<97, 0, 98>>),
+  utf8Replacement |-> SF("utf8", <<239, 191, 189>>),                         \* U+FFFD written out
+  utf8OverlongC0  |-> SF("utf8", <<192, 128>>),
+  utf8OverlongC1  |-> SF("utf8", <<193, 191>>),
+  utf8Overlong3   |-> SF("utf8", <<224, 159, 191>>),
+  utf8Overlong4   |-> SF("utf8", <<240, 143, 191, 191>>),
+  utf8SurrLow     |-> SF("utf8", <<237, 160, 128>>),                         \* U+D800
+  utf8SurrHigh    |-> SF("utf8", <<97, 237, 191, 191>>),                     \* U+DFFF
+  utf8SurrPair    |-> SF("utf8", <<237, 160, 189, 237, 184, 128>>),          \* CESU-8 for U+1F600
+  utf8Above       |-> SF("utf8", <<244, 144, 128, 128>>),                    \* U+110000
+  utf8F5          |-> SF("utf8", <<245, 128, 128, 128>>),
+  utf8Trunc2      |-> SF("utf8", <<97, 194>>),
+  utf8Trunc3      |-> SF("utf8", <<226, 130>>),
+  utf8Trunc4      |-> SF("utf8", <<240, 159, 152>>),
+  utf8LoneCont    |-> SF("utf8", <<128>>),
+  utf8BadCont     |-> SF("utf8", <<226, 40, 161>>),
+  utf8FE          |-> SF("utf8", <<254>>),
+  \* PrintableString
+  prAll           |-> SF("printable", <<65, 90, 97, 122, 48, 57, 32, 39, 40, 41, 43, 44, 45, 46, 47, 58, 61, 63>>),
+  prAsterisk      |-> SF("printable", <<97, 42>>),
+  prAmpersand     |-> SF("printable", <<38, 98>>),
+  prBang          |-> SF("printable", <<97, 33>>),
+  prQuote         |-> SF("printable", <<34>>),
+  prHash          |-> SF("printable", <<97, 35>>),
+  prPercent       |-> SF("printable", <<37, 36>>),
+  prSemicolon     |-> SF("printable", <<59>>),
+  prLessGreater   |-> SF("printable", <<60, 97, 62>>),
+  prAt            |-> SF("printable", <<97, 64, 98>>),
+  prBrackets      |-> SF("printable", <<91, 92, 93, 94>>),
+  prUnderscore    |-> SF("printable", <<97, 95, 98>>),
+  prBackquote     |-> SF("printable", <<96>>),
+  prBraces        |-> SF("printable", <<123, 124, 125>>),
+  prTilde         |-> SF("printable", <<126>>),
+  prA0            |-> SF("printable", <<160, 97>>),
+  prFF            |-> SF("printable", <<97, 255>>),
+  pr7F            |-> SF("printable", <<97, 127>>),
+  pr1F            |-> SF("printable", <<31, 97>>),
+  pr80            |-> SF("printable", <<128>>),
+  pr9F            |-> SF("printable", <<97, 159, 98>>),
+  prTab           |-> SF("printable", <<97, 9, 98>>),
+  prNul           |-> SF("printable", <<97, 0>>),
+  pr7FandFF       |-> SF("printable", <<127, 255>>),
+  pr1FandHash     |-> SF("printable", <<31, 35>>),
+  pr80andA5       |-> SF("printable", <<128, 165>>),
+  \* IA5String
+  ia5Edges        |-> SF("ia5", <<0, 10, 64, 126, 127>>),
+  ia5High80       |-> SF("ia5", <<128>>),
+  ia5HighFF       |-> SF("ia5", <<97, 255>>),
+  \* NumericString
+  numAll          |-> SF("numeric", <<48, 49, 50, 51, 52, 53, 54, 55, 56, 57, 32>>),
+  numSlash        |-> SF("numeric", <<48, 47>>),
+  numColon        |-> SF("numeric", <<58, 57>>),
+  numBang         |-> SF("numeric", <<33>>),
+  num1F           |-> SF("numeric", <<49, 31>>),
+  numPlus         |-> SF("numeric", <<43, 49>>),
+  numDot          |-> SF("numeric", <<49, 46, 53>>),
+  numHigh         |-> SF("numeric", <<176>>),
+  \* T61String / GeneralString
+  t61Text         |-> SF("t61", <<97, 98, 35>>),
+  t61High         |-> SF("t61", <<128, 233, 255>>),
+  t61Nul          |-> SF("t61", <<0, 97>>),
+  t61Utf8         |-> SF("t61", <<195, 169>>),
+  genText         |-> SF("general", <<97, 98>>),
+  genEscape       |-> SF("general", <<27, 40, 66, 200, 0>>)
+]
+FormNames == DOMAIN StringForms
+
+PrintableSet == (65..90) \cup (97..122) \cup (48..57) \cup {32, 39, 40, 41, 43, 44, 45, 46, 47, 58, 61, 63}
+PrintableAsteriskAmpersand == {42, 38}
+T61Unassigned == {0, 35, 36, 92, 94, 96, 123, 125, 126, 165, 166, 172, 173, 174, 175, 185, 186, 192, 201,
+                  208, 209, 210, 211, 212, 213, 214, 215, 216, 217, 218, 219, 220, 222, 223, 229, 255}
+Octets(s) == {s[i] : i \in DOMAIN s}
+IsPrintableText(s) == Octets(s) \subseteq PrintableSet \cup PrintableAsteriskAmpersand
+IsLatin1Text(s)    == \A b \in Octets(s) : (32 <= b /\ b <= 126) \/ (160 <= b /\ b <= 255)
+IsT61Text(s)       == Octets(s) \cap T61Unassigned = {}
+
+\* RFC 3629: the code points of a UTF-8 string; -1 marks an ill-formed sequence
+RECURSIVE Utf8Dec(_)
+Cont(b) == 128 <= b /\ b < 192
+Utf8Dec(s) ==
+  IF s = <<>> THEN <<>> ELSE
+  LET b == s[1]
+      n == Len(s)
+  IN IF b < 128 THEN <<b>> \o Utf8Dec(Tail(s))
+     ELSE IF 194 <= b /\ b < 224 /\ n >= 2 /\ Cont(s[2])
+       THEN <<(b - 192) * 64 + (s[2] - 128)>> \o Utf8Dec(SubSeq(s, 3, n))
+     ELSE IF 224 <= b /\ b < 240 /\ n >= 3 /\ Cont(s[2]) /\ Cont(s[3])
+       THEN LET cp == (b - 224) * 4096 + (s[2] - 128) * 64 + (s[3] - 128) IN
+            IF cp < 2048 \/ (55296 <= cp /\ cp < 57344) THEN <<-1>> ELSE <<cp>> \o Utf8Dec(SubSeq(s, 4, n))
+     ELSE IF 240 <= b /\ b < 245 /\ n >= 4 /\ Cont(s[2]) /\ Cont(s[3]) /\ Cont(s[4])
+       THEN LET cp == (b - 240) * 262144 + (s[2] - 128) * 4096 + (s[3] - 128) * 64 + (s[4] - 128) IN
+            IF cp < 65536 \/ cp > 1114111 THEN <<-1>> ELSE <<cp>> \o Utf8Dec(SubSeq(s, 5, n))
+     ELSE <<-1>>
+WellFormed(r) == \A i \in DOMAIN r : r[i] >= 0
+
+\* UTF-16 (BMPAsUTF16): a surrogate pair is one character, an unpaired surrogate is U+FFFD
+IsHigh(u) == 55296 <= u /\ u < 56320
+IsLow(u)  == 56320 <= u /\ u < 57344
+RECURSIVE Utf16Dec(_)
+Utf16Dec(u) ==
+  IF u = <<>> THEN <<>>
+  ELSE IF IsHigh(u[1]) /\ Len(u) >= 2 /\ IsLow(u[2])
+    THEN <<65536 + (u[1] - 55296) * 1024 + (u[2] - 56320)>> \o Utf16Dec(SubSeq(u, 3, Len(u)))
+  ELSE IF IsHigh(u[1]) \/ IsLow(u[1]) THEN <<65533>> \o Utf16Dec(Tail(u))
+  ELSE <<u[1]>> \o Utf16Dec(Tail(u))
+Units(s) == [i \in 1..(Len(s) \div 2) |-> s[2 * i - 1] * 256 + s[2 * i]]
+\* BMPTerminator: one trailing unit 0000 is dropped
+Unterminated(s) == IF Len(s) >= 2 /\ s[Len(s)] = 0 /\ s[Len(s) - 1] = 0 THEN SubSeq(s, 1, Len(s) - 2) ELSE s
+
+NoStr == [kind |-> "", seq |-> <<>>]
+Runes(r) == [kind |-> "runes", seq |-> r]
+Raw(s)   == [kind |-> "raw", seq |-> s]
+\* what a decoder yields for the contents `s` read as string type `st` (NoStr: rejected); lax = lax decoding in effect
+StrValue(st, s, lax) ==
+  CASE st = "printable" -> (IF IsPrintableText(s) THEN Runes(s)
+                            ELSE IF lax /\ IsLatin1Text(s) THEN Runes(s)          \* Latin-1: code point = octet
+                            ELSE IF lax /\ IsT61Text(s) THEN Raw(s)
+                            ELSE NoStr)
+    [] st = "utf8"      -> (IF WellFormed(Utf8Dec(s)) THEN Runes(Utf8Dec(s)) ELSE NoStr)
+    [] st = "ia5"       -> (IF \A b \in Octets(s) : b < 128 THEN Runes(s) ELSE NoStr)
+    [] st = "numeric"   -> (IF Octets(s) \subseteq (48..57) \cup {32} THEN Runes(s) ELSE NoStr)
+    [] st \in {"t61", "general"} -> Raw(s)
+    [] st = "bmp"       -> (IF Len(s) % 2 = 1 THEN NoStr ELSE Runes(Utf16Dec(Units(Unterminated(s)))))
+FormValue(f, lax) == StrValue(StringForms[f].st, StringForms[f].oct, lax)
+FormAccepted(f, lax) == FormValue(f, lax) # NoStr
+\* the string forms only lax decoding accepts: by the rules above, PrintableStrings that are Latin-1 or T.61 text
+LaxOnlyForms == {f \in FormNames : FormAccepted(f, TRUE) /\ ~FormAccepted(f, FALSE)}
+Tolerated == LaxTolerated \cup LaxOnlyForms
+
+Defects == LaxTolerated \cup AlwaysRejected \cup DeliberateDiff \cup Benign \cup ClassDefects \cup ExplicitEmptyDefects \cup FormNames
 
 \* the members after the one at p in its struct
 MembersAfter(t, p) == IF p = <<>> THEN {} ELSE {j \in DOMAIN Parent(t, p).kids : j > p[Len(p)]}
 CouldTake(m, cls, tn) == MatchesAnyTag(m) \/ (Tagged(m) /\ ReadClass(m) = cls /\ TagName(m) = tn)
 
+\* which string types reach a node: a Go string without an IMPLICIT tag takes whatever universal string tag is on the
+\* wire, whatever type it declares; behind an IMPLICIT tag only the declared type is there; an interface{} takes every
+\* string tag but GeneralString (which neither package decodes into an interface{}: the value stays nil)
+FormApplies(f, n) ==
+  LET st == StringForms[f].st IN
+  \/ (n.k = "str" /\ ~Tagged(n))
+  \/ (n.k = "str" /\ Tagged(n) /\ st = Wire(n))
+  \/ (n.k = "any" /\ "anyprintable" \in n.p /\ st # "general")
+\* ExplicitOpaque: the inside of an EXPLICIT wrapper received into a RawValue is not a node any decoder looks at
+InsideOpaque(t, p) == p # <<>> /\ Parent(t, p).k = "explicit" /\ NodeAt(t, p).k = "raw"
+\* ExplicitNoChild: nothing follows the element at p in its buffer
+LastInBuffer(t, v, p) == IF p = <<>> THEN ~HasRest(v) ELSE \A j \in MembersAfter(t, p) : ~Present(Parent(t, p).kids[j], v)
+
 Applicable(d, t, v, p) ==
   LET n == NodeAt(t, p)
       w == WireV(n, v)
-  IN CASE d \in HeaderDefects -> TRUE
-       [] d = "nonMinimalTag" -> ~HighTag(n)    \* long identifier form for a tag number below 31
+  IN CASE d \in HeaderDefects -> ~InsideOpaque(t, p)
+       [] d = "nonMinimalTag" -> ~HighTag(n) /\ ~InsideOpaque(t, p)   \* long identifier form for a tag number below 31
+       [] d \in FormNames -> FormApplies(d, n)
+       [] d = "explicitEmptyPrimitive" -> n.k = "explicit"
+       [] d = "explicitPrimitive" -> n.k = "explicit" /\ ~IsOpt(n)
        [] d = "wrongTag" -> ~MatchesAnyTag(n) /\ ~OptionalHere(t, p)
        [] d = "requiredFieldMissing" ->        \* the last element of a SEQUENCE is required and missing
             p # <<>> /\ Parent(t, p).k = "struct" /\ p[Len(p)] = Len(Parent(t, p).kids) /\ ~IsOpt(n)
@@ -413,9 +647,13 @@ PDInside(w, t, v) == {pd \in PD(WrapAll(w, t), v) :
 
 \* variant 3 differs from variant 1 only where there is a SEQUENCE OF / SET OF to hold an element
 VariantOK(t, v) == v # 3 \/ HasKind(t, {"seqof", "setof"})
+\* the string forms are placed in the shapes of StringFormShapes, in variant 0 and - where it adds something: the string
+\* is the whole value and a remainder follows it, or it is an element and there is a third one - in variant 2
+FormOK(s, v, d) == d \in FormNames =>
+                     (s \in StringFormShapes /\ (v = 0 \/ (v = 2 /\ (Shapes[s].k # "struct" \/ HasKind(Shapes[s], {"seqof", "setof"})))))
 CasesV(s, t, v) ==
-  {Case(s, v, pd[2], pd[1], m, <<>>, <<>>) : pd \in {x \in PD(t, v) : VariantOK(t, v)}, m \in {"strict", "laxTop"}}
-  \cup UNION {{Case(s, v, pd[2], pd[1], "laxAncestor", w, <<>>) : pd \in PDInside(w, t, v)}
+  {Case(s, v, pd[2], pd[1], m, <<>>, <<>>) : pd \in {x \in PD(t, v) : VariantOK(t, v) /\ FormOK(s, v, x[2])}, m \in {"strict", "laxTop"}}
+  \cup UNION {{Case(s, v, pd[2], pd[1], "laxAncestor", w, <<>>) : pd \in {x \in PDInside(w, t, v) : FormOK(s, v, x[2])}}
               : w \in {x \in Wraps : WrapAllOK(x, t) /\ VariantOK(WrapAll(x, t), v)}}
   \cup {Case(s, v, pd[2], pd[1], "fieldTag", <<>>, f) :
           pd \in {x \in PD(t, v) : x[2] \in LaxTolerated /\ VariantOK(t, v)}, f \in {g \in FieldPaths(t, v) : TRUE}}
@@ -464,11 +702,40 @@ ClassRow(x) ==
       absent == IsOpt(NodeAt(t, x.path)) /\ \A j \in MembersAfter(t, x.path) : IsOpt(Parent(t, x.path).kids[j])
   IN IF absent THEN [strict |-> "accept", lax |-> "accept", std |-> "accept"]
      ELSE [strict |-> "reject", lax |-> "reject", std |-> "reject"]
-Row(x) == IF x.defect \in ClassDefects THEN ClassRow(x) ELSE DefectTable(x.defect)
+\* ExplicitNoChild reaches further than the wrapper itself: ANY element of length 0 that is the last thing in its buffer is
+\* rejected by an EXPLICIT member it is offered to - the absent OPTIONAL EXPLICIT members between the last member on the wire
+\* and the element's own (upstream's order of checks: "explicit tag has no child" comes before the tags are compared).
+\* The malformations and string forms that leave an element without contents and are otherwise accepted:
+ZeroLength(d) == d = "emptyOID" \/ (d \in FormNames /\ StringForms[d].oct = <<>>)
+OfferedToExplicit(t, v, p) ==
+  /\ p # <<>> /\ Parent(t, p).k = "struct"
+  /\ LET kids == Parent(t, p).kids
+         i    == p[Len(p)]
+     IN \E j \in 1..(i - 1) : kids[j].k = "explicit" /\ \A k \in j..(i - 1) : ~Present(kids[k], v)
+NoChild(x) == /\ ZeroLength(x.defect) /\ LastInBuffer(Tree(x), x.v, x.path) /\ OfferedToExplicit(Tree(x), x.v, x.path)
+\* a wrapper of length 0 (ExplicitEmptyDefects): clauses ExplicitNoChild, ExplicitPresence, ExplicitOpaque - the same for
+\* every decoder in every mode
+Accepted3 == [strict |-> "accept", lax |-> "accept", std |-> "accept"]
+Rejected3 == [strict |-> "reject", lax |-> "reject", std |-> "reject"]
+InnerKind(x) == NodeAt(Tree(x), x.path).kids[1].k
+ExplicitEmptyRow(x) ==
+  IF LastInBuffer(Tree(x), x.v, x.path) THEN Rejected3
+  ELSE IF InnerKind(x) \in {"flag", "raw"} THEN Accepted3 ELSE Rejected3
+\* a string form: by the rules of clause StringTable; upstream has no lax decoding
+FormRow(f) == [strict |-> IF FormAccepted(f, FALSE) THEN "accept" ELSE "reject",
+               lax    |-> IF FormAccepted(f, TRUE) THEN "accept" ELSE "reject",
+               std    |-> IF FormAccepted(f, FALSE) THEN "accept" ELSE "reject"]
+Row(x) == IF NoChild(x) THEN Rejected3
+          ELSE IF x.defect \in ClassDefects THEN ClassRow(x)
+          ELSE IF x.defect \in ExplicitEmptyDefects THEN ExplicitEmptyRow(x)
+          ELSE IF x.defect \in FormNames THEN FormRow(x.defect)
+          ELSE DefectTable(x.defect)
 
 \* which decoded value an accepting decoder must produce ("same" = the value the bytes were made from)
 \* "absentFrom": the member at the path and every member after it in the same struct are absent (DEFAULT / zero)
 ValueOf(d) == IF d \in ClassDefects THEN "absentFrom" ELSE
+              IF d \in FormNames THEN "stringForm" ELSE          \* the string of Verdict(x).str
+              IF d \in ExplicitEmptyDefects THEN "emptyWrapper" ELSE   \* Flag: true; RawValue: the wrapper
               IF d \in {"emptyOID", "printableIsLatin1", "printableIsT61", "genTimeFraction", "setOfUnsorted",
                         "rawInnerNonDER", "utcNoSeconds"} THEN d ELSE "same"
 
@@ -487,6 +754,10 @@ Verdict(x) ==
       \* MarshalAgrees (named extension, asserted because the unchanged fork satisfies it on every case): when both
       \* packages decode the input, both marshal the decoded value to the same bytes - SET OF excepted (setOfUnsorted)
       agree == row.std = "accept" /\ ~HasKind(t, {"setof"})
+      \* ExplicitOpaque: Marshal writes the RawValue's full encoding back, an empty wrapper included
+      opaque == x.defect \in ExplicitEmptyDefects /\ InnerKind(x) = "raw"
+      \* the string a string form decodes to, where the call accepts it (strict and lax agree where both accept)
+      sv == IF x.defect \in FormNames /\ ~NoChild(x) THEN FormValue(x.defect, md = "accept" /\ row.strict = "reject") ELSE NoStr
   IN [ strict   |-> row.strict,                 \* fork, Unmarshal(b, &T)
        mode     |-> md,                         \* fork, called as x.mode says
        std      |-> row.std,                    \* encoding/asn1
@@ -495,17 +766,22 @@ Verdict(x) ==
        \* what the call consumes: the value, or nothing at all (an OPTIONAL top-level element taken as absent)
        takes    |-> IF x.defect \in ClassDefects /\ x.path = <<>> /\ row.strict = "accept" THEN "nothing" ELSE "value",
        \* Marshal(decoded) = consumed input bytes?  (asserted only where TRUE)
-       rt       |-> row.strict = "accept" /\ crt /\ (der \/ keeps \/ x.defect = "setOfUnsorted"),
-       rtMode   |-> md = "accept" /\ crt /\ (der \/ keeps \/ x.defect = "setOfUnsorted"),
-       rtStd    |-> row.std = "accept" /\ crt /\ ((x.defect = "none" /\ TimeRT(x)) \/ ((der \/ keeps) /\ ~ThroughSetOf(t, x.path))),
+       rt       |-> row.strict = "accept" /\ crt /\ (der \/ keeps \/ opaque \/ x.defect = "setOfUnsorted"),
+       rtMode   |-> md = "accept" /\ crt /\ (der \/ keeps \/ opaque \/ x.defect = "setOfUnsorted"),
+       rtStd    |-> row.std = "accept" /\ crt /\ ((x.defect = "none" /\ TimeRT(x)) \/ ((der \/ keeps \/ opaque) /\ ~ThroughSetOf(t, x.path))),
        mEq      |-> row.strict = "accept" /\ agree,
        mEqMode  |-> md = "accept" /\ agree,
-       inEffect |-> InEffect(x) ]
+       inEffect |-> InEffect(x),
+       \* string forms: the universal tag, the content octets and the Go string (code points or bytes) an accepting
+       \* decoder yields
+       str      |-> IF x.defect \in FormNames
+                    THEN [tag |-> StringTag(StringForms[x.defect].st), oct |-> StringForms[x.defect].oct, kind |-> sv.kind, seq |-> sv.seq]
+                    ELSE [tag |-> 0, oct |-> <<>>, kind |-> "", seq |-> <<>>] ]
 
 (* ---- laws (checked by TLC on every case) ---------------------------------------------------- *)
 E == vd
 
-TypeOK == /\ ClassDefects \cap (LaxTolerated \cup AlwaysRejected \cup DeliberateDiff \cup Benign) = {}
+TypeOK == /\ (ClassDefects \cup ExplicitEmptyDefects \cup FormNames) \cap (LaxTolerated \cup AlwaysRejected \cup DeliberateDiff \cup Benign) = {}
           /\ c.mode \in {"strict", "laxTop", "laxAncestor", "fieldTag"} /\ c.defect \in Defects \cup {"none"}
           /\ c.tf \in TimeForms \cup {NoTF} /\ (c.tf # NoTF => (c.defect = "none" /\ TfOK(Tree(c), c.v, c.tf)))
           /\ LaxTolerated \cap AlwaysRejected = {} /\ LaxTolerated \cap DeliberateDiff = {}
@@ -514,14 +790,14 @@ TypeOK == /\ ClassDefects \cap (LaxTolerated \cup AlwaysRejected \cup Deliberate
 \* lax accepts everything strict accepts (the value is the same by construction: Verdict has one value per case)
 LaxSuperset == E.strict = "accept" => E.mode = "accept"
 \* ... and additionally only the documented malformations, only where lax is in effect
-LaxOnlyDocumented == (E.mode = "accept" /\ E.strict = "reject") => (c.defect \in LaxTolerated /\ InEffect(c))
+LaxOnlyDocumented == (E.mode = "accept" /\ E.strict = "reject") => (c.defect \in Tolerated /\ InEffect(c))
 \* ... and it reaches every nested field: wherever the defect sits below the point where lax was requested
-LaxPropagates == (c.defect \in LaxTolerated /\ InEffect(c)) => E.mode = "accept"
+LaxPropagates == (c.defect \in Tolerated /\ InEffect(c) /\ ~NoChild(c)) => E.mode = "accept"
 \* ... through every container: the defect of a laxAncestor case lies strictly below the container
 AncestorDepth == (c.mode = "laxAncestor" /\ c.defect # "none") =>
                     (Len(c.path) >= Len(c.wrap) /\ \E r \in RootsAll(c.wrap, c.v) : IsPrefix(r, c.path))
 \* without lax a tolerated malformation is rejected (next to a lax-tagged field, too)
-LaxIsLocal == (c.defect \in LaxTolerated /\ ~InEffect(c) /\ ~FieldTagLax(c)) => E.mode = "reject"
+LaxIsLocal == (c.defect \in Tolerated /\ ~InEffect(c) /\ ~FieldTagLax(c)) => E.mode = "reject"
 \* strict = upstream, except for the documented list, and every entry of the list is a real difference
 StrictEqUpstream == c.defect \notin DeliberateDiff => E.strict = E.std
 DiffsAreDiffs == (c.defect \in DeliberateDiff /\ ~UnderRawContent(Tree(c), c.path)) => (E.strict # E.std \/ E.rt # E.rtStd)
@@ -564,6 +840,31 @@ ClassMismatch == c.defect \in ClassDefects =>
    /\ ~IsOpt(n) => E.strict = "reject"
    /\ E.strict = "accept" => (IsOpt(n) /\ E.value = "absentFrom" /\ ~E.rt /\ ~E.rtMode /\ ~E.rtStd)
    /\ E.takes = "nothing" => (c.path = <<>> /\ E.strict = "accept")
+
+(* EXPLICIT x target type *)
+\* a wrapper of length 0 is never decoded as a value of the inner type: it is a presence flag or an opaque RawValue, and only
+\* when something follows it; every decoder agrees in every mode; the opaque RawValue round-trips
+ExplicitEmptyLaw == c.defect \in ExplicitEmptyDefects =>
+   /\ E.strict = E.std /\ (c.mode # "fieldTag" => E.mode = E.strict)
+   /\ E.strict = "accept" <=> (InnerKind(c) \in {"flag", "raw"} /\ ~LastInBuffer(Tree(c), c.v, c.path))
+   /\ (E.strict = "accept" /\ InnerKind(c) = "raw" /\ ClassRT(c)) => (E.rt /\ E.rtMode /\ (~ThroughSetOf(Tree(c), c.path) => E.rtStd))
+   /\ (InnerKind(c) # "raw" /\ ~UnderRawContent(Tree(c), c.path)) => ~E.rt
+(* strings of each tag *)
+\* strict = upstream on every string form; lax differs only on the PrintableStrings that are Latin-1 / T.61 text, and then
+\* yields a string; an accepted form has a value, a rejected one none
+StringFormLaw == c.defect \in FormNames =>
+   /\ E.strict = E.std
+   /\ c.defect \notin LaxOnlyForms => (c.mode # "fieldTag" => E.mode = E.strict)
+   /\ c.defect \in LaxOnlyForms => (StringForms[c.defect].st = "printable" /\ E.strict = "reject")
+   /\ (E.mode = "accept") <=> (E.str.kind # "" /\ ~NoChild(c))
+   /\ ~E.rt \/ UnderRawContent(Tree(c), c.path)
+\* BMPAsUTF16: the code points of a BMPString are those of its units read as UTF-16 - as many as there are units, less
+\* one per surrogate pair - and none of them is a surrogate
+BmpIsUtf16 == (c.defect \in FormNames /\ StringForms[c.defect].st = "bmp" /\ E.str.kind = "runes") =>
+   LET u == Units(Unterminated(StringForms[c.defect].oct))
+       pairs == Cardinality({i \in 1..(Len(u) - 1) : IsHigh(u[i]) /\ IsLow(u[i + 1])}) IN
+   /\ Len(E.str.seq) = Len(u) - pairs
+   /\ \A i \in DOMAIN E.str.seq : ~IsHigh(E.str.seq[i]) /\ ~IsLow(E.str.seq[i])
 
 Init == c \in Cases /\ vd = Verdict(c)
 Next == UNCHANGED <<c, vd>>
